@@ -75,8 +75,8 @@ def run(rep):
     # bounded native stand-in for what CBMC cannot execute (Arc/Rc/Box allocation graphs, String, std DefaultHasher):
     # the laws on a pool of real SimpleTerms incl. nested quoted triples, and every provided conversion / copy path
     native.bounded_stand_in(rep, ID, "c02", [], "c02_laws_and_conversions",
-                            "eq / cmp / hash laws on all pairs and triples of a pool of 25 SimpleTerms (all kinds, tags in several cases and longer than 35 bytes, quoted triples nested twice incl. two with the same atom sequence but different bracketing; quoted triples ordered component-wise), NsTerm at every split point; hashes taken with std's hasher and with a hasher that is sensitive to how the bytes are grouped into write calls; every provided conversion or copy (ArcTerm / RcTerm from_term, as_simple, borrow_term, into_term, from_term_ref, try_into_term, Arc / Rc stashes copy_term, triple() / to_triple() / atoms() of the copies, graph names) yields a term of the same kind, equal both ways, cmp Equal, same hash; the other Term implementations (sparql ResultTerm, CmpTerm, native i32 / isize / usize / f64 / bool / str values, IriRef / BnodeId / VarName / NsTerm, Rio's model terms wrapped as Trusted, the JSON-LD parser's terms under 3 rdfDirection settings) answer every accessor like the SimpleTerm they stand for and are equal / hashed / ordered alike",
-                            "25 + 3 terms, 892 cases", "FromTerm / Term::into_term / as_simple / from_term_ref for SimpleTerm, sophia_term::{ArcTerm, RcTerm, GenericLiteral} (term/src/_macro.rs, _generic.rs), ArcStrStash / RcStrStash::copy_term, graph_name_eq, sparql ResultTerm (sparql/src/term.rs), rio Trusted<..> (rio/src/model.rs), jsonld RdfTerm (jsonld/src/parser/adapter.rs), native values as terms (api/src/term/_native_literal.rs, _native_iri.rs)",
+                            "eq / cmp / hash laws on all pairs and triples of a pool of 25 SimpleTerms (all kinds, tags in several cases and longer than 35 bytes, quoted triples nested twice incl. two with the same atom sequence but different bracketing; quoted triples ordered component-wise), NsTerm at every split point of 3 IRIs against every near miss of the IRI (one character removed or inserted, any substring doubled or removed); hashes taken with std's hasher and with a hasher that is sensitive to how the bytes are grouped into write calls; every provided conversion or copy (ArcTerm / RcTerm from_term, as_simple, borrow_term, into_term, from_term_ref, try_into_term, Arc / Rc stashes copy_term, triple() / to_triple() / atoms() of the copies, graph names) yields a term of the same kind, equal both ways, cmp Equal, same hash; the other Term implementations (sparql ResultTerm, CmpTerm, native i32 / isize / usize / f64 / bool / str values, IriRef / BnodeId / VarName / NsTerm, Rio's model terms wrapped as Trusted, the JSON-LD parser's terms under 3 rdfDirection settings) answer every accessor like the SimpleTerm they stand for and are equal / hashed / ordered alike",
+                            "25 + 3 terms, 5230 cases", "FromTerm / Term::into_term / as_simple / from_term_ref for SimpleTerm, sophia_term::{ArcTerm, RcTerm, GenericLiteral} (term/src/_macro.rs, _generic.rs), ArcStrStash / RcStrStash::copy_term, graph_name_eq, sparql ResultTerm (sparql/src/term.rs), rio Trusted<..> (rio/src/model.rs), jsonld RdfTerm (jsonld/src/parser/adapter.rs), native values as terms (api/src/term/_native_literal.rs, _native_iri.rs)",
                             "./check C02 --replay <this file>   # replay_src/c02")
     rep.not_covered += ["quoted triples (nesting) for cmp / hash beyond the pool of the native stand-in (eq is proved for any nesting)", "term types of c14n (C14nTerm, private) and of the SPARQL stash beyond ResultTerm; every conversion path is in the bounded native stand-in only",
                         "strings longer than one byte, non-ASCII content"]
